@@ -99,6 +99,7 @@ impl<T: Message<Response = ()> + Clone> Handler<Publish<T>> for Broker<T> {
             .collect::<Vec<_>>();
         #[cfg(hannibal_verif)]
         {
+            crate::verif::broker_type(_ctx.id, std::any::type_name::<T>());
             crate::verif::broker_msg(_ctx.id, &msg.0);
             crate::verif::broker(_ctx.id, "publish", 0);
             for subscriber in &live_subscribers {
@@ -140,6 +141,8 @@ impl<T: Message<Response = ()>> Message for Unsubscribe<T> {
 impl<T: Message<Response = ()> + Clone> Handler<Subscribe<T>> for Broker<T> {
     async fn handle(&mut self, _ctx: &mut Context<Self>, Subscribe(sender): Subscribe<T>) {
         #[cfg(hannibal_verif)]
+        crate::verif::broker_type(_ctx.id, std::any::type_name::<T>());
+        #[cfg(hannibal_verif)]
         crate::verif::broker(_ctx.id, "subscribe", sender.id.raw());
         self.subscribers.insert(sender.id, sender);
         log::trace!("subscribed to topic {:?}", std::any::type_name::<T>());
@@ -148,6 +151,8 @@ impl<T: Message<Response = ()> + Clone> Handler<Subscribe<T>> for Broker<T> {
 
 impl<T: Message<Response = ()> + Clone> Handler<Unsubscribe<T>> for Broker<T> {
     async fn handle(&mut self, _ctx: &mut Context<Self>, Unsubscribe(sender): Unsubscribe<T>) {
+        #[cfg(hannibal_verif)]
+        crate::verif::broker_type(_ctx.id, std::any::type_name::<T>());
         #[cfg(hannibal_verif)]
         crate::verif::broker(_ctx.id, "unsubscribe", sender.id.raw());
         self.subscribers.remove(&sender.id);
